@@ -224,3 +224,83 @@ REG.lemma('C01.init',
              'sublist_nodes(nl2, nl1)', 'distinct_nodes(nl2)'],
     goals = [('scheduler-invariant-holds-initially', 'sched_inv(nl2, gpn)')],
     serves = ['C01', 'C18'])
+
+
+# ------------------------------------------------------------------------------
+# Slurm.init_from_scratch: the node list offered on a Slurm allocation - one node per
+# allocated host, in order, each with the configured number of cores (what the
+# batch system reports only where the configuration is silent) and GPUs
+import z3 as _z3
+from pyvc import core as _C
+from pyvc.core import Val as _Val, coerce as _coerce
+
+def _env_get(ex, node, st):
+    """os.environ.get(name): an arbitrary but fixed environment (function of the name)"""
+    k = _coerce(ex.ev(node.args[0], st), T.Str)
+    oty = T.Opt(T.Str)
+    return _Val(oty, _z3.Function('env!get', _C.StrSort, oty.sort())(k.term))
+_env_get.mutates = ()
+
+def _env_item(ex, node, st):
+    return _env_get(ex, node, st)
+
+def _hostlist(ex, node, st):
+    a = _coerce(ex.ev(node.args[0], st), T.Str)
+    lty = T.List(T.Str)
+    v = _Val(lty, _z3.Function('ru!hostlist', _C.StrSort, lty.sort())(a.term))
+    for f in ex.wf(v): st.assume(f)
+    return v
+_hostlist.mutates = ()
+
+RMInfoS = T.Rec('RMInfoS', cores_per_node=T.Opt(T.Int), gpus_per_node=T.Opt(T.Int), lfs_per_node=T.Int, mem_per_node=T.Int,
+                node_list=NodeL)
+
+def _s_node_list(ex, node, st):
+    """self._get_node_list(nodes, rm_info) by its verified contract (above); rm_info is seen
+    through the fields that contract reads"""
+    nodes = ex.ev(node.args[0], st)
+    info  = ex.ev(node.args[1], st)
+    gpn = info.ty.get(info.term, 'gpus_per_node')
+    oty = info.ty.fields['gpus_per_node']
+    out = ex.fresh_wf(st, NodeL, 'node_list')
+    i = _z3.Int(_C.fresh_name('i'))
+    nty = nodes.ty
+    st.assume(NodeL.len(out.term) == nty.len(nodes.term))
+    el = _z3.Select(NodeL.arr(out.term), i)
+    tup = _z3.Select(nty.arr(nodes.term), i)
+    st.assume(_z3.ForAll([i], _z3.Implies(_z3.And(0 <= i, i < NodeL.len(out.term)), _z3.And(
+        NodeL.elem.get(el, 'index') == i, NodeL.elem.get(el, 'name') == nty.elem.get(tup, 0),
+        NodeL.elem.fields['cores'].len(NodeL.elem.get(el, 'cores')) == nty.elem.get(tup, 1),
+        NodeL.elem.fields['gpus'].len(NodeL.elem.get(el, 'gpus')) == _z3.If(oty.is_some(gpn), oty.val(gpn), 0))),
+        patterns=[el]))
+    return out
+_s_node_list.mutates = ()
+
+def _str_int(ex, node, st):
+    a = _coerce(ex.ev(node.args[0], st), T.Str)
+    return _Val(T.Int, _z3.Function('str!int', _C.StrSort, _z3.IntSort())(a.term))
+_str_int.mutates = ()
+
+REG.spec('agent/resource_manager/slurm.py:Slurm.init_from_scratch',
+    params   = dict(rm_info=RMInfoS),
+    returns  = RMInfoS,
+    locals   = dict(node_names=T.List(T.Str), nodes=T.List(NodeTup), nodelist=T.Opt(T.Str), cpn_str=T.Opt(T.Str), gpu_ids=T.Opt(T.Str)),
+    # the process environment: an arbitrary map from names to texts
+    globals  = dict(os=T.Rec('OsModule', environ=T.Map(T.Str, T.Str))),
+    calls    = {'ru.get_hostlist': _hostlist, 'self._get_node_list': _s_node_list, 'int': _str_int,
+                'ru.write_json': lambda ex, node, st: _C.NONE},
+    modifies = ['rm_info'],
+    raises   = {'RuntimeError': 'True', 'KeyError': 'False'},
+    raises_weak = ['RuntimeError'],
+    frame_on_raise = False,
+    ensures  = [
+      ('a-configured-node-size-is-kept-whatever-the-batch-system-reports',
+       'implies(bool(old(rm_info).cores_per_node), rm_info.cores_per_node == old(rm_info).cores_per_node) and '
+       'implies(bool(old(rm_info).gpus_per_node), rm_info.gpus_per_node == old(rm_info).gpus_per_node)'),
+      ('one-node-per-allocated-host-in-order-with-that-many-cores',
+       'rm_info.cores_per_node is not None and len(rm_info.node_list) == len(node_names) and '
+       'forall(lambda k: implies(0 <= k < len(rm_info.node_list), rm_info.node_list[k].name == node_names[k] and '
+       'rm_info.node_list[k].index == k and len(rm_info.node_list[k].cores) == val(rm_info.cores_per_node)))'),
+      ('the-same-object-is-returned', 'result == rm_info'),
+    ],
+    serves   = ['C18'])
